@@ -257,6 +257,7 @@ class Interp(object):
         self.max_steps = 2000000
         self.info_stack = []
         self.iter_hook = None              # hook(obj, FuncInfo): every iteration started by interpreted code
+        self.symkey_dicts = {}             # id -> dict that holds symbolic text keys (kept alive here)
         self.set_order = None              # None | 'sorted' | 'reversed' | 'rotated': adversarial set iteration order
 
     # ------------------------------------------------------------------ source access
@@ -604,7 +605,10 @@ class Interp(object):
             if isinstance(container, SymSeq):
                 raise Unsupported("membership in a symbolic sequence")
             raise Unsupported("membership in %r" % (container,))
-        if isinstance(needle, Sym):
+        if type(container) is dict and (isinstance(needle, (Sym, FmtStr)) or id(container) in self.symkey_dicts):
+            from .models import sym_key_lookup
+            return sym_key_lookup(self, container, needle)[0]
+        if isinstance(needle, (Sym, FmtStr)):
             if isinstance(container, (list, tuple, set, frozenset)):
                 terms = []
                 for x in container:
@@ -694,6 +698,12 @@ class Interp(object):
     def getitem(self, obj, idx):
         if isinstance(obj, SymMap):
             return map_getitem(self, obj, idx)
+        if type(obj) is dict and id(obj) in self.symkey_dicts:
+            from .models import sym_key_lookup
+            found, v = sym_key_lookup(self, obj, idx)
+            if not found:
+                raise KeyError(idx)
+            return v
         if isinstance(obj, (Sym, FmtStr, SymSeq)) or isinstance(idx, (Sym, FmtStr)):
             return sym_getitem(self, obj, idx)
         d = self.dunder(obj, '__getitem__')
@@ -704,7 +714,12 @@ class Interp(object):
     def setitem(self, obj, idx, value):
         if isinstance(obj, SymMap):
             return map_setitem(self, obj, idx, value)
-        if isinstance(obj, Sym) or isinstance(idx, Sym):
+        if type(obj) is dict and (isinstance(idx, (SStr, FmtStr)) or id(obj) in self.symkey_dicts):
+            if self.store_hook is not None:
+                self.store_hook('item', obj, idx, value)
+            from .models import sym_key_store
+            return sym_key_store(self, obj, idx, value)
+        if isinstance(obj, Sym) or isinstance(idx, (Sym, FmtStr)):
             raise Unsupported("symbolic item store")
         if self.store_hook is not None:
             self.store_hook('item', obj, idx, value)
